@@ -5,6 +5,7 @@ import (
 	"go/token"
 	"go/types"
 	"sort"
+	"strings"
 
 	"golang.org/x/tools/go/ssa"
 )
@@ -491,9 +492,30 @@ func resolveAlong(v ssa.Value, path []*ssa.BasicBlock) ssa.Value {
 type nilFacts struct {
 	val  map[ssa.Value]bool  // value → is non-nil
 	cell map[*ssa.Alloc]bool // cell → holds non-nil
+	fld  map[fldKey]bool     // error field of an object (x.err) → holds non-nil; forgotten at every call and store to that field
 }
 
-func (n *nilFacts) empty() bool { return n == nil || (len(n.val) == 0 && len(n.cell) == 0) }
+type fldKey struct {
+	base ssa.Value
+	idx  int
+}
+
+// fieldOfLoadKey: v is a load of base.f.
+func fieldOfLoadKey(v ssa.Value) (fldKey, bool) {
+	u, ok := v.(*ssa.UnOp)
+	if !ok || u.Op != token.MUL {
+		return fldKey{}, false
+	}
+	fa, ok := u.X.(*ssa.FieldAddr)
+	if !ok {
+		return fldKey{}, false
+	}
+	return fldKey{fa.X, fa.Field}, true
+}
+
+func (n *nilFacts) empty() bool {
+	return n == nil || (len(n.val) == 0 && len(n.cell) == 0 && len(n.fld) == 0)
+}
 
 func (n *nilFacts) keys() []string {
 	if n == nil {
@@ -506,17 +528,23 @@ func (n *nilFacts) keys() []string {
 	for c, b := range n.cell {
 		out = append(out, fmt.Sprintf("c:%s=%v", c.Name(), b))
 	}
+	for f, b := range n.fld {
+		out = append(out, fmt.Sprintf("f:%s.%d=%v", f.base.Name(), f.idx, b))
+	}
 	return out
 }
 
 func (n *nilFacts) clone() *nilFacts {
-	out := &nilFacts{val: map[ssa.Value]bool{}, cell: map[*ssa.Alloc]bool{}}
+	out := &nilFacts{val: map[ssa.Value]bool{}, cell: map[*ssa.Alloc]bool{}, fld: map[fldKey]bool{}}
 	if n != nil {
 		for k, v := range n.val {
 			out.val[k] = v
 		}
 		for k, v := range n.cell {
 			out.cell[k] = v
+		}
+		for k, v := range n.fld {
+			out.fld[k] = v
 		}
 	}
 	return out
@@ -526,12 +554,36 @@ func (n *nilFacts) get(v ssa.Value) (bool, bool) {
 	if n == nil {
 		return false, false
 	}
+	if _, ok := v.(*ssa.MakeInterface); ok {
+		return true, true // a concrete value boxed as an error
+	}
 	v = stripConv(v)
 	if isNilConst(v) {
 		return false, true
 	}
-	b, ok := n.val[v]
-	return b, ok
+	if b, ok := n.val[v]; ok {
+		return b, true
+	}
+	switch x := v.(type) {
+	case *ssa.MakeInterface:
+		return true, true
+	case *ssa.UnOp:
+		// a package-level error sentinel (io.EOF, errSkip, ErrClosed, …)
+		if g, ok := x.X.(*ssa.Global); ok && x.Op == token.MUL && isErrorType(x.Type()) && strings.HasPrefix(strings.ToLower(g.Name()), "err") || isGlobalNamed(x, "io", "EOF") {
+			return true, true
+		}
+	case *ssa.Call:
+		if f := staticCallee(&x.Call); f != nil && f.Pkg != nil {
+			if (f.Pkg.Pkg.Path() == "errors" && f.Name() == "New") || (f.Pkg.Pkg.Path() == "fmt" && f.Name() == "Errorf") {
+				return true, true
+			}
+		}
+	}
+	if k, ok := fieldOfLoadKey(v); ok {
+		b, ok := n.fld[k]
+		return b, ok
+	}
+	return false, false
 }
 
 // set records the outcome of a nil test on x (and on the cell x was loaded from).
@@ -546,6 +598,9 @@ func (n *nilFacts) set(x ssa.Value, nonNil bool, volatile map[*ssa.Alloc]bool) {
 			n.cell[al] = nonNil
 		}
 	}
+	if k, ok := fieldOfLoadKey(x); ok {
+		n.fld[k] = nonNil
+	}
 }
 
 // trackedErr: only values that can carry several outcomes are worth a fact (keeps the state small
@@ -558,8 +613,16 @@ func trackedErr(x ssa.Value) bool {
 	case *ssa.Phi:
 		return true
 	case *ssa.UnOp:
-		_, ok := v.X.(*ssa.Alloc)
-		return ok && v.Op == token.MUL
+		if v.Op != token.MUL {
+			return false
+		}
+		if _, ok := v.X.(*ssa.Alloc); ok {
+			return true
+		}
+		if _, ok := v.X.(*ssa.FieldAddr); ok {
+			return true
+		}
+		return false
 	}
 	// a value that flows into an error phi or an error cell
 	if refs := x.Referrers(); refs != nil {
@@ -583,7 +646,24 @@ func (n *nilFacts) apply(in ssa.Instruction, volatile map[*ssa.Alloc]bool) {
 		return
 	}
 	switch x := in.(type) {
+	case *ssa.Call, *ssa.Go, *ssa.Defer, *ssa.RunDefers:
+		// anything may assign an object's error field
+		if len(n.fld) > 0 {
+			n.fld = map[fldKey]bool{}
+		}
+		return
 	case *ssa.Store:
+		if fa, isF := x.Addr.(*ssa.FieldAddr); isF && isErrorType(x.Val.Type()) {
+			for k := range n.fld {
+				if k.idx == fa.Field {
+					delete(n.fld, k)
+				}
+			}
+			if b, ok := n.get(x.Val); ok {
+				n.fld[fldKey{fa.X, fa.Field}] = b
+			}
+			return
+		}
 		al, ok := x.Addr.(*ssa.Alloc)
 		if !ok || !isErrorType(x.Val.Type()) {
 			return
@@ -634,6 +714,11 @@ func (n *nilFacts) enter(b, s *ssa.BasicBlock) *nilFacts {
 	for v := range out.val {
 		if in, ok := v.(ssa.Instruction); ok && in.Block() == s {
 			delete(out.val, v)
+		}
+	}
+	for k := range out.fld {
+		if in, ok := k.base.(ssa.Instruction); ok && in.Block() == s {
+			delete(out.fld, k)
 		}
 	}
 	pi := -1
@@ -710,4 +795,9 @@ func volatileCells(fn *ssa.Function) map[*ssa.Alloc]bool {
 		}
 	}
 	return out
+}
+
+func isGlobalNamed(u *ssa.UnOp, pkg, name string) bool {
+	g, ok := u.X.(*ssa.Global)
+	return ok && u.Op == token.MUL && g.Name() == name && g.Pkg != nil && g.Pkg.Pkg.Path() == pkg
 }
